@@ -168,6 +168,17 @@ theorem to_bin_count_obj (o : Obj) (hv : I.Valid) (hf : Feasible I rows k) (temp
   · omega
   all_goals exact ceilDiv_scale k _ _ h1 h2
 
+/-- hence the cross-objective agreement that `packing_result.py:from_packing_and_end_result`
+enforces (it raises "found bin count disagreement" otherwise) always holds for a feasible packing:
+any two objectives convert their values to the same bin count -/
+theorem bin_counts_agree (o o' : Obj) (hv : I.Valid) (hf : Feasible I rows k) (t t' : List Int)
+    (ht : I.nItems ≤ t.length) (ht' : I.nItems ≤ t'.length) :
+    ∃ v v', eval o I rows t = .ok v ∧ eval o' I rows t' = .ok v' ∧
+      toBinCount o I v = toBinCount o' I v' := by
+  obtain ⟨v, h1, h2⟩ := to_bin_count_obj o hv hf t ht
+  obtain ⟨v', h1', h2'⟩ := to_bin_count_obj o' hv hf t' ht'
+  exact ⟨v, v', h1, h1', by rw [h2, h2']⟩
+
 /-- the geometric part of `lower_bound_bins` is what `instance.py` documents: the least number of
 bins whose total area accommodates all items -/
 theorem lbGeo_spec (hv : I.Valid) : I.totalArea ≤ lbGeo I * (I.W * I.H) := by
